@@ -261,3 +261,129 @@ theorem seqReplace_fill (f : List Char → List Char) (ts : List Tok) :
       simpa [fill, List.append_assoc] using this
 
 end ShootVerif.Rest
+
+namespace ShootVerif.Rest
+
+/-! ### cookParams in closed form -/
+
+def paramExprs (pp : List String) (p : Param) : List Expr :=
+  match p.kind with
+  | .scalar => if pp.contains p.name then [] else [.param p.name]
+  | .struct fs => fs.map (fieldExpr p.name)
+  | _ => []
+
+def aliasEntries (p : Param) : List (Expr × String) :=
+  match p.kind with
+  | .struct fs => fs.map (fun f => (fieldExpr p.name f, fieldKey f))
+  | _ => []
+
+def fieldPtrEntries (p : Param) : List (Expr × Bool) :=
+  match p.kind with
+  | .struct fs => (fs.filter (·.ptr)).map (fun f => (fieldExpr p.name f, true))
+  | _ => []
+
+def ptrEntries (p : Param) : List (Expr × Bool) :=
+  fieldPtrEntries p ++ (if p.ptr then [(.param p.name, true)] else [])
+
+theorem setAll_append {κ α : Type} [DecidableEq κ] (m a b : List (κ × α)) :
+    setAll m (a ++ b) = setAll (setAll m a) b := by
+  simp [setAll, List.foldl_append]
+
+theorem handleStruct_closed (st : Cooked) (p : String) (fs : List Field) :
+    handleStruct st p fs =
+      { st with
+        query := st.query ++ fs.map (fieldExpr p)
+        aliasMap := setAll st.aliasMap (fs.map (fun f => (fieldExpr p f, fieldKey f)))
+        isPtr := setAll st.isPtr ((fs.filter (·.ptr)).map (fun f => (fieldExpr p f, true))) } := by
+  induction fs generalizing st with
+  | nil => simp [handleStruct, setAll]
+  | cons f fs ih =>
+    have : handleStruct st p (f :: fs) = handleStruct
+        { st with
+          isPtr := if f.ptr then setKV st.isPtr (fieldExpr p f) true else st.isPtr
+          query := st.query ++ [fieldExpr p f]
+          aliasMap := setKV st.aliasMap (fieldExpr p f) (fieldKey f) } p fs := rfl
+    rw [this, ih]
+    by_cases hp : f.ptr = true
+    · simp [hp, setAll, List.filter_cons]
+    · simp [hp, setAll, List.filter_cons]
+
+/-- what one parameter does to the three tables the query statements are built from -/
+theorem handleParam_closed (verb : Verb) (pp : List String) (st st' : Cooked) (p : Param)
+    (h : handleParam verb pp st p = .ok st') :
+    st'.query = st.query ++ paramExprs pp p ∧
+    st'.aliasMap = setAll st.aliasMap (aliasEntries p) ∧
+    st'.isPtr = setAll st.isPtr (ptrEntries p) := by
+  unfold handleParam at h
+  simp only [bind, Except.bind, pure, Except.pure] at h
+  cases hk : p.kind with
+  | ctx =>
+    simp only [hk] at h
+    by_cases hp : p.ptr = true
+    · simp only [hp, ↓reduceIte, Except.ok.injEq] at h; subst h
+      simp [paramExprs, aliasEntries, ptrEntries, fieldPtrEntries, hk, hp, setAll]
+    · simp only [hp, Bool.false_eq_true, ↓reduceIte, Except.ok.injEq] at h; subst h
+      simp [paramExprs, aliasEntries, ptrEntries, fieldPtrEntries, hk, hp, setAll]
+  | scalar =>
+    simp only [hk] at h
+    by_cases hp : p.ptr = true <;> by_cases hm : p.name ∈ pp
+    all_goals
+      have hc : pp.contains p.name = decide (p.name ∈ pp) := by simp
+      simp only [hc, hm, decide_true, decide_false, hp, Bool.false_eq_true, ↓reduceIte, Except.ok.injEq] at h
+      subst h
+      simp [paramExprs, aliasEntries, ptrEntries, fieldPtrEntries, hk, hp, hm, setAll]
+  | struct fs =>
+    simp only [hk, setBody] at h
+    cases hb : st.body with
+    | some b => simp [hb] at h
+    | none =>
+      simp only [hb, handleStruct_closed] at h
+      by_cases hp : p.ptr = true
+      · simp only [hp, ↓reduceIte, Except.ok.injEq] at h; subst h
+        simp [paramExprs, aliasEntries, ptrEntries, fieldPtrEntries, hk, hp, setAll, List.foldl_append]
+      · simp only [hp, Bool.false_eq_true, ↓reduceIte, Except.ok.injEq] at h; subst h
+        simp [paramExprs, aliasEntries, ptrEntries, fieldPtrEntries, hk, hp, setAll]
+  | qualOther =>
+    simp only [hk, setBody] at h
+    cases hb : st.body with
+    | some b => simp [hb] at h
+    | none =>
+      simp only [hb] at h
+      by_cases hp : p.ptr = true
+      · simp only [hp, ↓reduceIte, Except.ok.injEq] at h; subst h
+        simp [paramExprs, aliasEntries, ptrEntries, fieldPtrEntries, hk, hp, setAll]
+      · simp only [hp, Bool.false_eq_true, ↓reduceIte, Except.ok.injEq] at h; subst h
+        simp [paramExprs, aliasEntries, ptrEntries, fieldPtrEntries, hk, hp, setAll]
+  | dict =>
+    simp only [hk] at h
+    by_cases hp : p.ptr = true <;> by_cases hv : verb.hasBody = true <;>
+      simp only [hp, hv, Bool.false_eq_true, ↓reduceIte, Except.ok.injEq] at h <;> subst h <;>
+      simp [paramExprs, aliasEntries, ptrEntries, fieldPtrEntries, hk, hp, setAll]
+  | unsupported =>
+    simp [hk] at h
+
+theorem cookParams_closed (verb : Verb) (pp : List String) (ps : List Param) :
+    ∀ (st c : Cooked), cookParams verb pp st ps = .ok c →
+      c.query = st.query ++ ps.flatMap (paramExprs pp) ∧
+      c.aliasMap = setAll st.aliasMap (ps.flatMap aliasEntries) ∧
+      c.isPtr = setAll st.isPtr (ps.flatMap ptrEntries) := by
+  induction ps with
+  | nil =>
+    intro st c h
+    simp only [cookParams, pure, Except.pure, Except.ok.injEq] at h
+    subst h; simp [setAll]
+  | cons p ps ih =>
+    intro st c h
+    simp only [cookParams, bind, Except.bind] at h
+    cases h1 : handleParam verb pp st p with
+    | error e => simp [h1] at h
+    | ok st1 =>
+      simp only [h1] at h
+      obtain ⟨q1, a1, p1⟩ := handleParam_closed verb pp st st1 p h1
+      obtain ⟨q2, a2, p2⟩ := ih st1 c h
+      refine ⟨?_, ?_, ?_⟩
+      · rw [q2, q1]; simp
+      · rw [a2, a1, List.flatMap_cons, setAll_append]
+      · rw [p2, p1, List.flatMap_cons, setAll_append]
+
+end ShootVerif.Rest
